@@ -52,7 +52,7 @@ func shapeSource(i int, shape string, next string) (string, error) {
 	case "lit2":
 		return fmt.Sprintf("func %s(c bool) int {\n\tif c {\n\t\treturn 1\n\t}\n\treturn 2\n}\n", f), nil
 	case "litops":
-		return fmt.Sprintf("func %s(c bool) any {\n\tif c {\n\t\treturn 1 + 2\n\t}\n\treturn \"a\" + \"b\"\n}\n", f), nil
+		return fmt.Sprintf("func %s(c, d bool) any {\n\tif c {\n\t\treturn 1 + 2\n\t}\n\tif d {\n\t\treturn \"a\" + \"b\"\n\t}\n\treturn -(9 / 2) * 2\n}\n", f), nil
 	case "litbool":
 		return fmt.Sprintf("func %s(c bool) bool {\n\tif c {\n\t\treturn true\n\t}\n\treturn !true\n}\n", f), nil
 	case "litpair":
